@@ -95,6 +95,10 @@ pub fn c12(ctx: &Ctx) -> PropResult {
         ("ok", "DISPLAY(\"héllo\")\nx <- 1 + 2\nDISPLAY(x)\n".into()),
         ("ok", "DISPLAY_NOLN(\"a\")\nDISPLAY_NOLN(\"b\")\n".into()),
         ("ok", "".into()),
+        ("ok", " ".into()),
+        ("ok", "\n".into()),
+        ("ok", "// nothing but a comment".into()),
+        ("ok", ";".into()),
         ("ok", "PROCEDURE f(n) {\n IF (n == 0) {\n RETURN 0\n }\n RETURN n + f(n - 1)\n}\nDISPLAY(f(10))\n".into()),
         ("ok", "IMPORT [\"SIN\", \"COS\"] FROM MOD \"MATH\"\nDISPLAY(SIN(0))\n".into()),
         ("ok", "IMPORT \"SQRT\" FROM MOD \"nothing.ap\"".into()),
@@ -196,7 +200,7 @@ pub fn c12(ctx: &Ctx) -> PropResult {
                             continue; // the program itself is read from standard input
                         }
                         // a NUL byte cannot be passed in a process argument (operating-system limit)
-                        if mode == "eval" && (src.starts_with('-') || src.is_empty() || src.contains('\0')) {
+                        if mode == "eval" && (src.starts_with('-') || src.contains('\0')) {
                             continue;
                         }
                         // one process argument is limited to 128 KiB by the operating system
@@ -300,7 +304,7 @@ pub fn c12(ctx: &Ctx) -> PropResult {
     let stats = collect(verdicts);
     PropResult {
         stats,
-        rule: format!("{} programs (succeeding, lexical / syntax / runtime errors, robot-wall termination, reading INPUT, imports with a bracketed list, random programs) x {{file, -e, --eval-stdin}} x six --debug modes x --check x stdin empty / two lines; the real binary built from /repo without the hook feature is spawned twice per configuration; compared with the model's decision: exit status zero / non-zero, standard-output bytes, diagnostics present on standard error; implementation-only: --check prints nothing, two runs agree", all_programs.len()),
+        rule: format!("{} programs (succeeding, lexical / syntax / runtime errors, robot-wall termination, reading INPUT, imports with a bracketed list, random programs) x {{file, -e, --eval-stdin}} x six --debug modes x --check x stdin empty / two lines; the real binary built from /repo without the hook feature is spawned twice per configuration; compared with the model's decision: exit status zero / non-zero, standard-output bytes, diagnostics present on standard error; implementation-only: --check prints nothing, two runs agree; the empty, blank, newline-only, comment-only and `;` programs in every mode, -e included", all_programs.len()),
         exhaustive: false,
         notes: vec![format!("binary: {BINARY}")],
     }
@@ -656,6 +660,14 @@ pub fn c13(ctx: &Ctx) -> PropResult {
             trees.push((main, vec![(file.to_string(), module.clone())], "extensionless".to_string()));
         }
     }
+    // one name declared more than once in a module (exported / private in every order); what a module's top-level code
+    // can call (nothing of its importer)
+    for (lib, main) in crate::props6::module_duplicate_names() {
+        trees.push((main, vec![("lib.ap".to_string(), lib)], "duplicate-names".to_string()));
+    }
+    for (lib, main) in crate::props6::module_sees_importer() {
+        trees.push((main, vec![("lib.ap".to_string(), lib)], "module-sees-importer".to_string()));
+    }
     let verdicts = par_map(ctx, &trees, "c13", &|d, dir, (main, files, kind): &(String, Vec<(String, String)>, String)| {
         let work = dir.join("w");
         let _ = std::fs::remove_dir_all(&work);
@@ -691,7 +703,8 @@ pub fn c13(ctx: &Ctx) -> PropResult {
         }
         // module top-level runs once per import statement
         if failure.is_none() && matches!(r.end, End::Ok) {
-            let imports = main.matches("IMPORT").count() - main.matches("IMPORT MOD \"MATH\"").count();
+            // import statements that name a user file
+            let imports = main.lines().filter(|l| l.trim_start().starts_with("IMPORT") && l.contains(".ap\"")).count();
             let runs = r.output.matches("module top-level").count();
             if runs != imports {
                 failure = fail("impl-vs-oracle", case.clone(), impl_rec.clone(), reply.clone(), format!("module top-level ran {runs} times for {imports} imports"));
@@ -789,7 +802,7 @@ pub fn c13(ctx: &Ctx) -> PropResult {
     stats.merge(collect(raw_verdicts));
     PropResult {
         stats,
-        rule: "library imports: for every module of the live registry the forms IMPORT MOD, IMPORT \"f\" FROM MOD (several names), IMPORT [f, g] FROM MOD, an unknown name, an unknown module; after each, every procedure name of the whole registry is probed without running it (a call with one argument too many: the label is the argument list iff the name is defined, the name iff it is not) and the importer's variable is displayed; user modules: generated files in the importer's directory or sub-directories with top-level output, a module variable, two exported procedures (one calling the other), a private procedure, optionally a runtime / syntax / lexical error or a nested import relative to the module's own directory; imported whole, by one name, by a list, by a private name, twice; probes for exported / private / module-variable / nested names and the importer's variables; in-process with the model given the same file tree".into(),
+        rule: "library imports: for every module of the live registry the forms IMPORT MOD, IMPORT \"f\" FROM MOD (several names), IMPORT [f, g] FROM MOD, an unknown name, an unknown module; after each, every procedure name of the whole registry is probed without running it (a call with one argument too many: the label is the argument list iff the name is defined, the name iff it is not) and the importer's variable is displayed; user modules: generated files in the importer's directory or sub-directories with top-level output, a module variable, two exported procedures (one calling the other), a private procedure, optionally a runtime / syntax / lexical error or a nested import relative to the module's own directory; imported whole, by one name, by a list, by a private name, twice; probes for exported / private / module-variable / nested names and the importer's variables; in-process with the model given the same file tree; modules declaring one name several times (exported / private in every order) under every import form; module top-level code calling what only its importer imported or declared".into(),
         exhaustive: false,
         notes: vec!["exported procedures that call a procedure the importer did not import are the known finding (see known_findings.txt); the generator imports the whole module whenever an exported procedure calls another one".into()],
     }
